@@ -12,3 +12,5 @@ import PycommProps.C19
 #print axioms Pycomm.C19.tables_names_ascii
 #print axioms Pycomm.C19.member_any_case
 #print axioms Pycomm.C19.status_text_total
+#print axioms Pycomm.C19.ext_status_total
+#print axioms Pycomm.C19.ext_status_unknown_is_none
